@@ -554,3 +554,58 @@ class ParserTable(Shape):
         from .vals import SDict, AbstractParser, to_int
         has = z3.Function(self.name + '.has', IntS, BoolS)
         return SDict(lambda k: has(to_int(k)), lambda k: AbstractParser(self.name, to_int(k)), self.name)
+
+
+class EmptyDict(Shape):
+    """an empty mapping that the function fills with symbolic keys"""
+
+    def make(self, mk, name, idx=None):
+        from .vals import SDict
+        return SDict(lambda k: False, lambda k: None, name)
+
+
+class CodeDictOf(Shape):
+    """a mapping keyed by enum-coded values (attribute names: a registered name or a raw number) to records:
+    membership and every record leaf are functions of the key (isname, name, raw)"""
+
+    def __init__(self, rec):
+        self.rec = rec
+
+    def make(self, mk, name, idx=None):
+        from .vals import SDict, SRec, Code, Opaque, to_int
+        base = mk.fname(name)
+        ksorts = [BoolS, StrS, IntS]
+        hasf = z3.Function(base + '.has', *(ksorts + [BoolS]))
+        rec = self.rec
+        cur = mk.current() if hasattr(mk, 'current') else mk
+
+        def kargs(k):
+            if isinstance(k, Code):
+                from .vals import to_bool, to_str
+                return [to_bool(k.isname), to_str(k.name), to_int(k.raw)]
+            from .vals import is_strlike, to_str
+            if is_strlike(k):
+                return [z3.BoolVal(True), to_str(k), z3.IntVal(0)]
+            return [z3.BoolVal(False), z3.StringVal(''), to_int(k)]
+
+        def get(k):
+            a = kargs(k)
+            fields = {}
+            for f, sh in rec.fields.items():
+                nm = '%s[].%s' % (base, f)
+                if isinstance(sh, CodeT):
+                    raw = z3.Function(nm + '.raw', *(ksorts + [IntS]))(*a)
+                    fields[f] = Code(z3.Function(nm + '.isname', *(ksorts + [BoolS]))(*a), z3.Function(nm + '.name', *(ksorts + [StrS]))(*a), raw)
+                elif isinstance(sh, IntT):
+                    v = z3.Function(nm, *(ksorts + [IntS]))(*a)
+                    if sh.lo is not None:
+                        cur.assume(v >= sh.lo)
+                    fields[f] = v
+                elif isinstance(sh, StrT):
+                    fields[f] = z3.Function(nm, *(ksorts + [StrS]))(*a)
+                elif isinstance(sh, BoolT):
+                    fields[f] = z3.Function(nm, *(ksorts + [BoolS]))(*a)
+                else:
+                    fields[f] = Opaque('%s of %s' % (f, base))
+            return SRec(fields, rec.kind)
+        return SDict(lambda k: hasf(*kargs(k)), get, name)
